@@ -320,6 +320,23 @@ def generated_case(ctx, rng, idx):
     if not ctx.close(np.asarray(y2), ref, rtol=1e-6, scale=sc):
         ctx.violation('solution_of_the_ivp', 'value_mismatch_with_sens',
                       {'chi': y2, 'reference': ref}, feats)
+    # ---- no time points: empty arrays of the documented shapes
+    try:
+        y0_, s0_ = obj.simulate(x[free], [])
+        ctx.count('empty_time_vectors')
+        if np.shape(y0_) != (len(outs), 0) or np.shape(s0_) != (
+                0, len(outs), len(free_names)):
+            ctx.violation('sensitivity_shape', 'empty_times_shape',
+                          {'outputs': np.shape(y0_),
+                           'sensitivities': np.shape(s0_),
+                           'expected': [(len(outs), 0),
+                                        (0, len(outs), len(free_names))]},
+                          feats)
+    except Exception as e:      # noqa
+        ctx.violation_exc('simulate_raises', e,
+                          {'model': am.describe(), 'call': 'no time points'},
+                          feats)
+        return
     # ---- later calls on the same object: the same arguments give the same
     # outputs and derivatives again, also after a call with other arguments
     # (the first call was compared with the reference above)
